@@ -120,6 +120,14 @@ func (g *c17Gen) text() c17Text {
 		post := g.of("", "", " ", "\n", "/* c */", " /* ; */ ", " -- c\n", "--;\n", "/**/")
 		return pre + ";" + post
 	}
+	if g.pct(4) {
+		// very long texts: many cheap read-only statements, then a write (bounded walks are a classic)
+		counts := []int{63, 64, 65, 127, 128, 129, 255, 256, 257, 300, 511, 512, 513, 1000, 1025, 2049}
+		n := counts[g.rng.IntN(len(counts))]
+		w, what := g.write()
+		unit := g.of("SELECT 1;", "SELECT 1; ", "select 1;\n", "VALUES(1);")
+		return c17Text{strings.Repeat(unit, n) + w + g.tail(), "disguised", "many-statements:" + what, true}
+	}
 	switch r := g.rng.IntN(100); {
 	case r < 25:
 		s := g.read()
@@ -308,7 +316,11 @@ func c17Preprocess(r *proto.Request, endpoint string, strong bool) error {
 func c17Render(texts []c17Text) string {
 	var parts []string
 	for _, t := range texts {
-		parts = append(parts, fmt.Sprintf("%q", t.SQL))
+		q := t.SQL
+		if len(q) > 400 { // very long generated texts are abbreviated in messages
+			q = fmt.Sprintf("%s …[%d bytes, %d x ';']… %s", q[:120], len(q), strings.Count(q, ";"), q[len(q)-160:])
+		}
+		parts = append(parts, fmt.Sprintf("%q", q))
 	}
 	return strings.Join(parts, ", ")
 }
@@ -335,17 +347,23 @@ func TestVerif_C17_DB(t *testing.T) {
 		g := &c17Gen{rng: c17NewRng(rt, 17)}
 		dir, err := os.MkdirTemp("", "c17d")
 		if err != nil {
-			rt.Skip(err)
+			fmt.Println("VERIF-INFRA:", err)
+			rec.Label("inconclusive:infrastructure")
+			return
 		}
 		defer os.RemoveAll(dir)
 		d, err := sql.Open(filepath.Join(dir, "c17.db"), false, true)
 		if err != nil {
-			rt.Skip(err)
+			fmt.Println("VERIF-INFRA:", err)
+			rec.Label("inconclusive:infrastructure")
+			return
 		}
 		defer d.Close()
 		for _, q := range []string{c17Schema, c17Rows} {
 			if _, err := d.ExecuteStringStmt(q); err != nil {
-				rt.Skip(err)
+				fmt.Println("VERIF-INFRA:", err)
+				rec.Label("inconclusive:infrastructure")
+				return
 			}
 		}
 		snapDir := filepath.Join(dir, "snap")
@@ -369,7 +387,9 @@ func TestVerif_C17_DB(t *testing.T) {
 			rec.Label("path:" + path)
 			before, err := c17Snap(d.Path(), snapDir)
 			if err != nil {
-				rt.Skip(err)
+				fmt.Println("VERIF-INFRA:", err)
+				rec.Label("inconclusive:infrastructure")
+				return
 			}
 			req := c17Req(texts, tx)
 			pre := g.pct(85)
@@ -386,7 +406,9 @@ func TestVerif_C17_DB(t *testing.T) {
 				d.Query(req, false)
 				after, err := c17Snap(d.Path(), afterDir)
 				if err != nil {
-					rt.Skip(err)
+					fmt.Println("VERIF-INFRA:", err)
+					rec.Label("inconclusive:infrastructure")
+					return
 				}
 				if after != before {
 					sig := "C17/query-path-modified-db"
@@ -400,7 +422,9 @@ func TestVerif_C17_DB(t *testing.T) {
 			resp, rerr := d.Request(req, false)
 			after, err := c17Snap(d.Path(), afterDir)
 			if err != nil {
-				rt.Skip(err)
+				fmt.Println("VERIF-INFRA:", err)
+				rec.Label("inconclusive:infrastructure")
+				return
 			}
 			if rerr != nil {
 				// whole-request error (e.g. commit failed after an explicit COMMIT in the text): C13's business
@@ -431,20 +455,26 @@ func TestVerif_C17_Store(t *testing.T) {
 		g := &c17Gen{rng: c17NewRng(rt, 1717)}
 		dir, err := os.MkdirTemp("", "c17s")
 		if err != nil {
-			rt.Skip(err)
+			fmt.Println("VERIF-INFRA:", err)
+			rec.Label("inconclusive:infrastructure")
+			return
 		}
 		defer os.RemoveAll(dir)
 		s, ln, err := c17NewStore(filepath.Join(dir, "node"))
 		if err != nil {
 			fmt.Fprintf(os.Stderr, "C17-SKIP store did not come up: %v\n", err)
-			rt.Skipf("single-node store did not come up: %v", err)
+			fmt.Printf("VERIF-INFRA: "+"single-node store did not come up: %v"+"\n", err)
+			rec.Label("inconclusive:infrastructure")
+			return
 		}
 		defer ln.Close()
 		defer s.Close(true)
 		ctx := context.Background()
 		if _, _, err := s.Execute(ctx, executeRequestFromStrings([]string{c17Schema, c17Rows}, false, false)); err != nil {
 			fmt.Fprintf(os.Stderr, "C17-SKIP setup failed: %v\n", err)
-			rt.Skipf("setup failed: %v", err)
+			fmt.Printf("VERIF-INFRA: "+"setup failed: %v"+"\n", err)
+			rec.Label("inconclusive:infrastructure")
+			return
 		}
 		snapDir := filepath.Join(dir, "snap")
 		os.MkdirAll(snapDir, 0o755)
@@ -469,7 +499,9 @@ func TestVerif_C17_Store(t *testing.T) {
 			snaps := s.numSnapshots.Load()
 			before, err := c17Snap(s.dbPath, snapDir)
 			if err != nil {
-				rt.Skip(err)
+				fmt.Println("VERIF-INFRA:", err)
+				rec.Label("inconclusive:infrastructure")
+				return
 			}
 			idx0 := s.DBAppliedIndex()
 			if endpoint == "query" {
@@ -485,7 +517,9 @@ func TestVerif_C17_Store(t *testing.T) {
 				s.Query(ctx, qr)
 				after, err := c17Snap(s.dbPath, afterDir)
 				if err != nil {
-					rt.Skip(err)
+					fmt.Println("VERIF-INFRA:", err)
+					rec.Label("inconclusive:infrastructure")
+					return
 				}
 				if s.numSnapshots.Load() != snaps {
 					continue
@@ -516,7 +550,9 @@ func TestVerif_C17_Store(t *testing.T) {
 			resp, _, _, rerr := s.Request(ctx, eqr)
 			after, err := c17Snap(s.dbPath, afterDir)
 			if err != nil {
-				rt.Skip(err)
+				fmt.Println("VERIF-INFRA:", err)
+				rec.Label("inconclusive:infrastructure")
+				return
 			}
 			if s.numSnapshots.Load() != snaps {
 				continue
@@ -545,7 +581,25 @@ func TestVerif_C17_Store(t *testing.T) {
 	})
 }
 
-func c17NewStore(dir string) (*Store, net.Listener, error) {
+// c17NewStore brings up a single-node Store under dir. Start-up trouble (listen, open, bootstrap,
+// leader wait) is retried twice with a short back-off in a fresh sub-directory before giving up.
+func c17NewStore(dir string, maxRO ...int) (*Store, net.Listener, error) {
+	var lastErr error
+	for try := 0; try < 3; try++ {
+		if try > 0 {
+			time.Sleep(time.Duration(try) * 500 * time.Millisecond)
+		}
+		s, ln, err := c17NewStoreOnce(filepath.Join(dir, fmt.Sprintf("try%d", try)), maxRO...)
+		if err == nil {
+			return s, ln, nil
+		}
+		lastErr = err
+		fmt.Println("VERIF-INFRA: store start-up attempt failed:", err)
+	}
+	return nil, nil, lastErr
+}
+
+func c17NewStoreOnce(dir string, maxRO ...int) (*Store, net.Listener, error) {
 	if err := os.MkdirAll(dir, 0o755); err != nil {
 		return nil, nil, err
 	}
@@ -557,6 +611,9 @@ func c17NewStore(dir string) (*Store, net.Listener, error) {
 	if s == nil {
 		ln.Close()
 		return nil, nil, fmt.Errorf("store.New returned nil")
+	}
+	if len(maxRO) > 0 {
+		s.MaxReadOnlyConns = maxRO[0] // what -db-max-ro-conns sets
 	}
 	if err := s.Open(); err != nil {
 		ln.Close()
@@ -625,7 +682,9 @@ func TestVerif_C17_ROPool(t *testing.T) {
 		g := &c17Gen{rng: c17NewRng(rt, 171717)}
 		dir, err := os.MkdirTemp("", "c17p")
 		if err != nil {
-			rt.Skip(err)
+			fmt.Println("VERIF-INFRA:", err)
+			rec.Label("inconclusive:infrastructure")
+			return
 		}
 		defer os.RemoveAll(dir)
 		bound := 1 + g.rng.IntN(2)
@@ -639,13 +698,17 @@ func TestVerif_C17_ROPool(t *testing.T) {
 		if target == "db" {
 			d, err := sql.Open(filepath.Join(dir, "c17.db"), false, true)
 			if err != nil {
-				rt.Skip(err)
+				fmt.Println("VERIF-INFRA:", err)
+				rec.Label("inconclusive:infrastructure")
+				return
 			}
 			defer d.Close()
 			d.SetMaxReadOnlyConns(bound)
 			for _, q := range []string{c17Schema, c17Rows} {
 				if _, err := d.ExecuteStringStmt(q); err != nil {
-					rt.Skip(err)
+					fmt.Println("VERIF-INFRA:", err)
+					rec.Label("inconclusive:infrastructure")
+					return
 				}
 			}
 			dbPath = d.Path()
@@ -656,31 +719,18 @@ func TestVerif_C17_ROPool(t *testing.T) {
 			}
 			applied = func() uint64 { return 0 }
 		} else {
-			if err := os.MkdirAll(filepath.Join(dir, "node"), 0o755); err != nil {
-				rt.Skip(err)
-			}
-			ln, err := net.Listen("tcp", "127.0.0.1:0")
+			s, ln, err := c17NewStore(filepath.Join(dir, "node"), bound)
 			if err != nil {
-				rt.Skip(err)
+				fmt.Println("VERIF-INFRA: single-node store did not come up:", err)
+				rec.Label("inconclusive:infrastructure")
+				return
 			}
 			defer ln.Close()
-			s := New(&Config{DBConf: NewDBConfig(), Dir: filepath.Join(dir, "node"), ID: "n1"}, &mockLayer{ln})
-			if s == nil {
-				rt.Skip("store.New returned nil")
-			}
-			s.MaxReadOnlyConns = bound // what -db-max-ro-conns sets
-			if err := s.Open(); err != nil {
-				rt.Skip(err)
-			}
 			defer s.Close(true)
-			if err := s.Bootstrap(NewServer(s.ID(), s.Addr(), true)); err != nil {
-				rt.Skip(err)
-			}
-			if _, err := s.WaitForLeader(30 * time.Second); err != nil {
-				rt.Skip(err)
-			}
 			if _, _, err := s.Execute(ctx, executeRequestFromStrings([]string{c17Schema, c17Rows}, false, false)); err != nil {
-				rt.Skip(err)
+				fmt.Println("VERIF-INFRA:", err)
+				rec.Label("inconclusive:infrastructure")
+				return
 			}
 			dbPath = s.dbPath
 			stalled = func(c context.Context, r *proto.Request) error {
@@ -712,7 +762,9 @@ func TestVerif_C17_ROPool(t *testing.T) {
 
 			before, err := c17Snap(dbPath, snapDir)
 			if err != nil {
-				rt.Skip(err)
+				fmt.Println("VERIF-INFRA:", err)
+				rec.Label("inconclusive:infrastructure")
+				return
 			}
 			idx0 := applied()
 
@@ -748,13 +800,17 @@ func TestVerif_C17_ROPool(t *testing.T) {
 				case <-finished:
 				case <-time.After(60 * time.Second):
 					acancel()
-					rt.Skipf("query attempt did not return after the readers left")
+					fmt.Printf("VERIF-INFRA: " + "query attempt did not return after the readers left" + "\n")
+					rec.Label("inconclusive:infrastructure")
+					return
 				}
 			}
 			acancel()
 			after, err := c17Snap(dbPath, afterDir)
 			if err != nil {
-				rt.Skip(err)
+				fmt.Println("VERIF-INFRA:", err)
+				rec.Label("inconclusive:infrastructure")
+				return
 			}
 			if after != before || applied() != idx0 {
 				sig := "C17/query-endpoint-modified-db{pool=saturated}"
